@@ -168,8 +168,8 @@ example : scriptTerm false 0 [Ev.item (1 : Nat), .transient 5, .item 2] = .fail 
 
 /-- a reducer handed an expired context returns the context error without consuming anything -/
 theorem reducer_ctx_costs_nothing {γ : Type v} (m : SM σ α) (f : γ → α → Except Err γ) (fuel : Nat) (acc : γ) (s : σ)
-    (h : m.step s false = (.err .ctx, s)) : reduceLoop m f false (fuel + 1) acc s = (.error .ctx, s) :=
-  reduceLoop_ctx m f fuel acc s h
+    (h : m.step s false = (.err .ctx, s)) : reduceLoop reduceG m f false (fuel + 1) acc s = (.error .ctx, s) :=
+  reduceLoop_ctx reduceG_canon m f (fun h => by cases h) fuel acc s h
 
 /-! ## every combinator named in the property: its own `*_transient_transparent`, `*_fatal`,
 `*_callback_error` (most are corollaries of its `s_*_denotes` theorem, which holds for every termination
